@@ -756,7 +756,7 @@ PROPS = {
                      "Vibrato.C15.reload_generates_same", "Vibrato.C15.generate_respects_equiv",
                      "Vibrato.C15.user_lexicon_respects_equiv", "Vibrato.C15.generate_after_user_respects_equiv",
                      "Vibrato.C15.reloaded_user_file_empty"],
-        "streams": with_cli(train_streams("C15", 40, 1000), {"train": train_classifier("C15")}, (), 12, 400),
+        "streams": with_cli(train_streams("C15", 40, 1000), {"train": train_classifier("C15")}, ("train-",), 12, 400),
         "rule": "same set-ups as C14; histories generate, generate, write_model, read_model, generate, read_user_lexicon, generate, "
                 "write_model again; the model image is decoded and re-encoded byte-exactly by the Lean model",
         "trusted_base": TRAINER_TB,
